@@ -366,3 +366,35 @@ PROPS["C14"] = {
         {"name": "rapid", "mode": "rapid", "run": "TestC14Rapid", "checks": {"quick": 8000, "thorough": 160000}},
     ],
 }
+
+PROPS["C17"] = {
+    "level": "exploration",
+    "rule": ("Documents = a generated library-valid Spec document (all optional members, <= 3 devices) with k in {0,1,1,1,2,3} mutations at "
+             "drawn tree positions: remove a member, replace a value by another JSON type (string, empty string, number, bool, null, {}, [], "
+             "wrapped in a list / object), replace a number by one of 19 boundary values (-1, 0, 2^32-1, 2^32, +-(2^53+1), 2^63-1, 2^63, "
+             "-2^63, -2^63-1, 2^64-1, 2^64, 2^70, 1.5, -0.5, 1.0), add an extra member, add an annotation with a malformed or odd key at spec "
+             "or device level, or replace the root. Every document is encoded as JSON and as block YAML (used only if yaml.v3 decodes it "
+             "back to the identical tree). Oracle: model.Draft07 - a draft-07 evaluator written for this harness that reads "
+             "/repo/schema/schema.json and defs.json at run time. For documents whose annotations are well-formed, ValidateData(json), "
+             "ValidateData(yaml), ValidateFile(.json), ValidateFile(.yaml), ValidateReader(json) and - when the document decodes "
+             "losslessly into specs.Spec - Validate(spec) / ValidateType must all equal the model's verdict, for the builtin schema and for "
+             "an externally loaded copy of the shipped files; for malformed annotations only JSON-vs-YAML equality per entry point; the "
+             "none, NOP and nil schemas must accept every object document through every entry point; sentinels: builtin rejects {} and "
+             "'devices: 3'. Non-trivial iff the document is invalid by exactly one mutation, or has an integer beyond 2^53, or is an "
+             "unmutated valid document; distinct = distinct document trees."),
+    "assumptions": ["non-object roots are only checked against the builtin/external schema (the statement's domain lists object documents for the none/nil clause)",
+                    "the model ignores unknown keywords as draft-07 requires (the shipped '\"ref\": \"#definitions/Env\"' typo is therefore no constraint)",
+                    "Go regexp is used for 'pattern'/'patternProperties' in the model; annotation keys with line terminators are not generated"],
+    "manifest": {
+        "text": ("Differential test of every validation entry point, both encodings and three schema configurations against an independent "
+                 "draft-07 evaluator over the shipped schema files, on valid Specs and type/bound/extra-member mutants of them. Sampling; "
+                 "the thorough tier additionally cross-checks the model against python jsonschema (oracle dispute = undecided)."),
+        "note": "trusted: model/draft07.go (draft-07 semantics), cross-validated in the thorough tier against python jsonschema Draft7Validator",
+        "technique": "property-based testing: differential against a reference draft-07 evaluator; JSON/YAML metamorphic equality; entry-point differential",
+    },
+    "health": {"quick": {"model-valid": 2000, "model-invalid": 5000, "annotations-malformed": 500, "integer-beyond-2^53": 1000, "in-memory-spec": 1000, "yaml-encodable": 10000}},
+    "units": [
+        {"name": "regress", "mode": "plain", "run": "TestC17Regress"},
+        {"name": "rapid", "mode": "rapid", "run": "TestC17Rapid", "checks": {"quick": 24000, "thorough": 480000}},
+    ],
+}
